@@ -3,6 +3,7 @@ import vlib
 SPEC = {
     "props_module": "C03",
     "model_vo": "theories/C03/Model.vo",
+    "check_fn": "C03.History.check_case_h",
     "bin": "c03",
     "n": {"quick": 8, "thorough": 40},
     "engine_timeout": 2400,
